@@ -81,6 +81,10 @@ def cases(E):
     # the address arithmetic the label pass and the emit pass rely on (through its contract) is established here too
     from vf.props import C04 as c04
     cs += c04.live_bus_cases(E) + c04.address_contract_cases(E)
+    # scope discipline of the expansion (every scoped construct opens exactly its own scope, announced and closed by the position nodes the later
+    # passes replay; errors of expanded statements propagate): labels and parameters live in those scopes
+    from vf.props import expansion
+    cs += expansion.cases(E)
     return cs
 
 
